@@ -350,8 +350,23 @@ def prefix_rules(C, P):
             # the Some edge must pass is_empty and starts_with('/') before any map insert / content write / format use
             sinks = [o['pos'] for o in E.ident_ops(b) + E.reforig_ops(b) if E.is_mutating(o)] + [o['pos'] for o in E.content_ops(b)]
             sinks = [s for s in sinks if s in b.reach_from(pos)]
+            if b.kind == 'Closure' and not sinks:
+                # the test sits in a closure of an iterator chain (`keys().filter_map(|k| k.strip_prefix(old).filter(boundary).map(..))`):
+                # what leaves the closure as Some(..) / true is what gets re-keyed - the closure's successful return is the sink
+                sinks = [q for q, s_ in b.iter_stmts() if s_['k'] == 'assign' and s_['dst']['l'] == 0 and not s_['dst']['p'] and q in b.reach_from(pos)
+                         and not (s_['rv']['k'] == 'agg' and s_['rv'].get('var') in ('None',)) and not (s_['rv']['k'] == 'use' and str(const_val(s_['rv']['o'])) == 'false')]
+                sinks += [q for q, t_ in b.iter_calls() if t_['dst']['l'] == 0 and not t_['dst']['p'] and q in b.reach_from(pos) and not call_matches(t_, r'FromResidual.*::from_residual$')]
             sw = [p for p, tt in b.iter_calls() if call_matches(tt, r'str>::starts_with') and any(const_val(a) == "'/'" for a in tt['args'])]
             ie = [p for p, tt in b.iter_calls() if call_matches(tt, r'str>::is_empty$')]
+            # `.strip_prefix(old).filter(|rest| rest.is_empty() || rest.starts_with('/'))`: the boundary test is the predicate of an
+            # Option::filter applied to the strip result - that call then stands for both tests
+            for p2, t2 in b.iter_calls():
+                if call_matches(t2, r'Option::<T>::filter$') and len(t2['args']) >= 2 and b.pos_dominates(pos, p2):
+                    for org in origins(b, t2['args'][1]):
+                        if org[0] not in ('param', 'const', 'place') and org[1].get('k') == 'assign' and org[1]['rv']['k'] == 'agg' and org[1]['rv'].get('ak') == 'closure':
+                            cb = P.bodies.get(org[1]['rv'].get('fn'))
+                            if cb is not None and any(call_matches(t3, r'str>::is_empty$') for q3, t3 in cb.iter_calls()) and any(call_matches(t3, r'str>::starts_with') and any(const_val(a) == "'/'" for a in t3['args']) for q3, t3 in cb.iter_calls()):
+                                sw.append(p2); ie.append(p2)
             ok = bool(sinks) and bool(sw) and bool(ie) and must_pass(b, pos, sinks, set(sw) | set(ie), include_start=False)
             C.check(ok, 'C04-DEV-prefix', '%s|strip_prefix|boundary-test' % b.short,
                     'a path prefix is stripped and the remainder used for re-keying without the segment-boundary test (renaming /pkg1 would also re-key /pkg10)', b.where(pos),
